@@ -37,3 +37,43 @@ pub fn unhex(s: &str) -> Vec<u8> {
         .map(|i| u8::from_str_radix(&s[2 * i..2 * i + 2], 16).expect("hex"))
         .collect()
 }
+
+/// `--decode min|max` (default min): min = DecodeLevel::nothing(); max = every level at its most
+/// verbose, with a tracing subscriber installed (once per process) that formats every event into
+/// a sink, so that the Display / Loggable code paths really execute.
+pub fn decode_arg(args: &[String]) -> rodbus::DecodeLevel {
+    let mut level = "min".to_string();
+    let mut i = 0;
+    while i < args.len() {
+        if args[i] == "--decode" {
+            level = args.get(i + 1).cloned().unwrap_or_default();
+            i += 1;
+        } else if let Some(v) = args[i].strip_prefix("--decode=") {
+            level = v.to_string();
+        }
+        i += 1;
+    }
+    match level.as_str() {
+        "min" => rodbus::DecodeLevel::nothing(),
+        "max" => {
+            let _ = tracing_subscriber::fmt()
+                .with_writer(std::io::sink)
+                .with_max_level(tracing::Level::TRACE)
+                .try_init();
+            rodbus::DecodeLevel::new(
+                rodbus::AppDecodeLevel::DataValues,
+                rodbus::FrameDecodeLevel::Payload,
+                rodbus::PhysDecodeLevel::Data,
+            )
+        }
+        other => panic!("--decode {other:?}: expected min or max"),
+    }
+}
+
+/// PANIC, or SPIN when the scripted transport detected a reader that keeps reading after EOF
+pub fn panic_name(e: &Box<dyn std::any::Any + Send>) -> &'static str {
+    match e.downcast_ref::<&str>() {
+        Some(s) if *s == "SPIN" => "SPIN",
+        _ => "PANIC",
+    }
+}
